@@ -24,6 +24,8 @@ def shapes(t):
                                ('POST', '/form-url-encoded-enctype-post-method', 'application/x-www-form-urlencoded'), ('POST', '/form-multipart-enctype-post-method', 'multipart/form-data; boundary=b'),
                                ('POST', '/file-upload/initiate', None)):
         out.append(dict(kind='fixed', method=m, target=target, ctype=ctype, bcap=2))
+    for dp in MULTIPART_DISPOSITION_PREFIXES:
+        for ln_ in ((2, 2), (0, 1)): out.append(dict(kind='multipart', disp_prefix=dp, lens=ln_))
     return out
 
 
@@ -46,6 +48,8 @@ def build_request(p, cons):
         head = '%s %s HTTP/1.1\r\n' % (p['method'], p['target'])
         if p.get('ctype'): head += 'Content-Type: %s\r\n' % p['ctype']
         return S(head + '\r\n').concat(b), {'b': b}
+    if k == 'multipart':
+        return multipart_request(cons, p['disp_prefix'], lens=tuple(p.get('lens', (2, 2))))
     raise ValueError(k)
 
 
@@ -76,6 +80,7 @@ def check_headers(data):
 
 def case(prog, params):
     ex = new_ex(prog)
+    if params['kind'] == 'multipart': ex.fork_read_until = 6
     cons = []
     reqb, sy = build_request(params, cons)
     res = {'violations': [], 'inconclusive': [], 'samples': [], 'kinds': {}, 'statuses': {}, 'responses': 0}
